@@ -1214,3 +1214,284 @@ Proof.
   unfold expected_clauses. rewrite <- Hl. apply ejson_leaves; [exact Hj|].
   rewrite Hl. exact Hk.
 Qed.
+
+(* ================================================================ G. the produced JSON is plain data *)
+Lemma json_wf_list_go l :
+  (fix go (l : list json) : bool :=
+     match l with [] => true | x :: l' => json_wf x && go l' end) l = forallb json_wf l.
+Proof. induction l as [|x l IH]; simpl; [reflexivity|]. rewrite IH. reflexivity. Qed.
+
+Lemma json_wf_obj_go o :
+  (fix go (o : list (str * json)) : bool :=
+     match o with [] => true | (_, v) :: o' => json_wf v && go o' end) o
+  = forallb (fun kv => json_wf (snd kv)) o.
+Proof. induction o as [|[k v] o IH]; simpl; [reflexivity|]. rewrite IH. reflexivity. Qed.
+
+Lemma json_wf_obj o :
+  json_wf (JObj o) = nodup_keys (map fst o) && forallb (fun kv => json_wf (snd kv)) o.
+Proof. simpl. rewrite json_wf_obj_go. reflexivity. Qed.
+
+Lemma json_wf_jlist l : json_wf (JList l) = forallb json_wf l.
+Proof. simpl. apply json_wf_list_go. Qed.
+
+Lemma mem_keys_set {A} x k (v : A) o :
+  mem_str x (map fst (obj_set k v o)) = mem_str x (map fst o) || str_eqb x k.
+Proof.
+  induction o as [|[k' v'] o IH]; simpl; [rewrite orb_false_r; reflexivity|].
+  destruct (str_eqb k k') eqn:Hk; simpl.
+  - apply str_eqb_eq in Hk. subst k'. destruct (str_eqb x k); simpl; [reflexivity|].
+    rewrite orb_false_r. reflexivity.
+  - rewrite IH. rewrite orb_assoc. reflexivity.
+Qed.
+
+Lemma obj_set_wf k v o : json_wf (JObj o) = true -> json_wf v = true -> json_wf (JObj (obj_set k v o)) = true.
+Proof.
+  rewrite !json_wf_obj. intros H Hv. apply andb_prop in H as [Hn Hf]. apply andb_true_intro.
+  induction o as [|[k' v'] o IH]; simpl.
+  - rewrite Hv. auto.
+  - simpl in Hn, Hf. apply andb_prop in Hn as [Hn1 Hn2]. apply andb_prop in Hf as [Hf1 Hf2].
+    destruct (str_eqb k k') eqn:Hk; simpl.
+    + rewrite Hn1, Hn2, Hv, Hf2. auto.
+    + destruct (IH Hn2 Hf2) as [I1 I2].
+      rewrite mem_keys_set, (str_eqb_sym k' k), Hk, orb_false_r, Hn1, I1, I2, Hf1. auto.
+Qed.
+
+Lemma mem_keys_remove {A} x k (o : list (str * A)) :
+  mem_str x (map fst (obj_remove k o)) = true -> mem_str x (map fst o) = true.
+Proof.
+  induction o as [|[k' v'] o IH]; simpl; [auto|].
+  destruct (str_eqb k k'); simpl.
+  - intros H. rewrite H. apply orb_true_r.
+  - intros H. apply orb_true_iff in H as [H|H]; [rewrite H; reflexivity|].
+    rewrite (IH H). apply orb_true_r.
+Qed.
+
+Lemma obj_remove_wf k o : json_wf (JObj o) = true -> json_wf (JObj (obj_remove k o)) = true.
+Proof.
+  rewrite !json_wf_obj. intros H. apply andb_prop in H as [Hn Hf]. apply andb_true_intro.
+  induction o as [|[k' v'] o IH]; simpl; [auto|].
+  simpl in Hn, Hf. apply andb_prop in Hn as [Hn1 Hn2]. apply andb_prop in Hf as [Hf1 Hf2].
+  destruct (str_eqb k k'); simpl; [auto|].
+  destruct (IH Hn2 Hf2) as [I1 I2]. rewrite I1, I2, Hf1.
+  destruct (mem_str k' (map fst (obj_remove k o))) eqn:Hm; [|auto].
+  apply mem_keys_remove in Hm. rewrite Hm in Hn1. discriminate.
+Qed.
+
+Lemma obj_get_wf k o v : json_wf (JObj o) = true -> obj_get k o = Some v -> json_wf v = true.
+Proof.
+  rewrite json_wf_obj. intros H. apply andb_prop in H as [_ Hf]. rewrite forallb_forall in Hf.
+  intros Hg. apply obj_get_in in Hg as [k' Hin]. exact (Hf _ Hin).
+Qed.
+
+Lemma field_opts_wf cfg field : wf_config cfg = true -> json_wf (JObj (field_opts cfg field)) = true.
+Proof.
+  intros Hwf. unfold field_opts. destruct (obj_get field (c_field_options cfg)) as [o|] eqn:Ho; [|reflexivity].
+  apply obj_get_in in Ho as [k' Hin]. unfold wf_config in Hwf.
+  apply andb_prop in Hwf as [Hwf _]. apply andb_prop in Hwf as [_ Hwf].
+  rewrite forallb_forall in Hwf. exact (Hwf _ Hin).
+Qed.
+
+Lemma leaf_attr_wf l key v : leaf_attr l key = Some v -> json_wf v = true.
+Proof.
+  unfold leaf_attr.
+  repeat match goal with |- context [if ?b then _ else _] => destruct b end;
+    match goal with |- option_map _ ?x = _ -> _ => destruct x end; simpl; intros H; inversion H; reflexivity.
+Qed.
+
+Lemma add_key_wf l m inner key :
+  json_wf (JObj inner) = true -> json_wf (JObj (add_key l m inner key)) = true.
+Proof.
+  intros Hi. unfold add_key. destruct (leaf_attr l key) as [v|] eqn:Hv; [|exact Hi].
+  apply leaf_attr_wf in Hv.
+  assert (Hd : forall k o, json_wf (JObj o) = true -> json_wf (obj_get_default k (JBool true) o) = true).
+  { intros k o Ho. unfold obj_get_default. destruct (obj_get k o) eqn:Hg; [|reflexivity].
+    eapply obj_get_wf; eauto. }
+  repeat match goal with |- context [if ?b then _ else _] => destruct b end;
+    repeat (apply obj_set_wf || apply Hd); auto.
+Qed.
+
+Lemma fold_add_key_wf l m keys inner :
+  json_wf (JObj inner) = true -> json_wf (JObj (fold_left (add_key l m) keys inner)) = true.
+Proof.
+  revert inner. induction keys as [|k keys IH]; simpl; intros inner Hi; [exact Hi|].
+  apply IH. apply add_key_wf. exact Hi.
+Qed.
+
+Lemma leaf_json_wf cfg l j : wf_config cfg = true -> leaf_json cfg l = ROk j -> json_wf j = true.
+Proof.
+  intros Hwf. unfold leaf_json.
+  destruct (match l_kind l, l_q l with LWord, Some q => str_eqb q k_star | _, _ => false end).
+  - intros H. inversion H. destruct (l_name l); reflexivity.
+  - destruct (leaf_method cfg l) as [| | |m| |]; try discriminate.
+    assert (Hin : json_wf (JObj (fold_left (add_key l m) (class_keys (l_kind l) ++ l_addkeys l)
+                                           (base_options cfg (leaf_field l)))) = true).
+    { apply fold_add_key_wf. unfold base_options.
+      destruct (match obj_get k_match_type (field_opts cfg (leaf_field l)) with
+                | Some v => json_truthy v | None => false end);
+        repeat apply obj_remove_wf; apply field_opts_wf; exact Hwf. }
+    destruct (str_eqb m k_query_string || str_eqb m k_multi_match); intros H; inversion H;
+      rewrite json_wf_obj; simpl; rewrite ?json_wf_obj_go; simpl;
+      rewrite json_wf_obj in Hin; simpl in Hin; rewrite ?Hin; reflexivity.
+Qed.
+
+Lemma jmap_wf (f : eitem -> eres json) l js :
+  Forall (fun e => forall j, f e = ROk j -> json_wf j = true) l ->
+  jmap f l = ROk js -> forallb json_wf js = true.
+Proof.
+  intros HF. revert js. induction HF as [|e l He _ IH]; simpl; intros js H.
+  - inversion H. reflexivity.
+  - destruct (f e) as [j|] eqn:Hj; [|discriminate]. destruct (jmap f l) as [js'|]; [|discriminate].
+    inversion H; subst. simpl. rewrite (He j eq_refl), (IH js' eq_refl). reflexivity.
+Qed.
+
+Lemma json_wf_single k v : json_wf (JObj [(k, v)]) = json_wf v.
+Proof. rewrite json_wf_obj. simpl. rewrite andb_true_r. reflexivity. Qed.
+
+Lemma opt_entry_wf k js kv :
+  forallb json_wf js = true -> In kv (opt_entry k js) -> json_wf (snd kv) = true.
+Proof.
+  intros Hjs Hin. destruct js as [|j0 js]; [contradiction|]. destruct Hin as [<-|[]].
+  simpl snd. rewrite json_wf_jlist. exact Hjs.
+Qed.
+
+Lemma bool_obj_wf m s n :
+  forallb json_wf m = true -> forallb json_wf s = true -> forallb json_wf n = true ->
+  json_wf (JObj [(k_bool, JObj (opt_entry k_must m ++ opt_entry k_should s ++ opt_entry k_must_not n))])
+  = true.
+Proof.
+  intros Hm Hs Hn. rewrite json_wf_single, json_wf_obj. apply andb_true_intro. split.
+  - destruct m, s, n; reflexivity.
+  - apply forallb_forall. intros kv Hin. apply in_app_or in Hin as [Hin|Hin];
+      [exact (opt_entry_wf _ _ _ Hm Hin)|].
+    apply in_app_or in Hin as [Hin|Hin];
+      [exact (opt_entry_wf _ _ _ Hs Hin)|exact (opt_entry_wf _ _ _ Hn Hin)].
+Qed.
+
+Lemma ejson_wf cfg : wf_config cfg = true -> forall e j, ejson cfg e = ROk j -> json_wf j = true.
+Proof.
+  intros Hwf e. induction e as [l|p n it IH|k items IH] using eitem_ind'; intros j Hj.
+  - eapply leaf_json_wf; eauto.
+  - simpl in Hj. destruct (ejson cfg it) as [j'|] eqn:Hit; [|discriminate]. inversion Hj; subst.
+    specialize (IH j' eq_refl).
+    destruct n as [[|c nm]|]; simpl; rewrite IH; reflexivity.
+  - destruct k; simpl in Hj;
+      try (destruct (jmap (ejson cfg) items) as [js|] eqn:Hjs; [|discriminate];
+           inversion Hj; subst; pose proof (jmap_wf _ _ _ IH Hjs) as Hw;
+           simpl; rewrite json_wf_list_go, Hw; reflexivity).
+    destruct (bool_parts (ejson cfg) items) as [[[m s] n]|] eqn:Hb; [|discriminate].
+    inversion Hj; subst. clear Hj.
+    assert (Hparts : forallb json_wf m = true /\ forallb json_wf s = true /\ forallb json_wf n = true).
+    { revert m s n Hb. induction IH as [|it l Hit _ IHl]; intros m s n Hb.
+      - simpl in Hb. inversion Hb. auto.
+      - rewrite bool_parts_cons in Hb.
+        destruct (bool_here (ejson cfg) it) as [[[m1 s1] n1]|] eqn:Hh; [|discriminate].
+        destruct (bool_parts (ejson cfg) l) as [[[m2 s2] n2]|] eqn:Hb2; [|discriminate].
+        inversion Hb; subst. destruct (IHl m2 s2 n2 eq_refl) as [I1 [I2 I3]].
+        rewrite !forallb_app, I1, I2, I3, !andb_true_r.
+        assert (Hsub : forall kk sub js, it = EOp kk sub -> kk <> EKBool ->
+                         jmap (ejson cfg) sub = ROk js -> forallb json_wf js = true).
+        { intros kk sub js -> Hkk Hjs.
+          assert (Hw : json_wf (JObj [(k_bool, JObj [(op_key kk, JList js)])]) = true).
+          { apply Hit. destruct kk; try (exfalso; apply Hkk; reflexivity); simpl; rewrite Hjs; reflexivity. }
+          simpl in Hw. rewrite json_wf_list_go in Hw. rewrite !andb_true_r in Hw. exact Hw. }
+        unfold bool_here in Hh. destruct it as [lf|p n0 it'|[] sub]; cbv iota beta in Hh;
+          try (match type of Hh with
+               | match ?x with _ => _ end = _ => destruct x as [j|] eqn:Hj; [|discriminate]
+               end; injection Hh as <- <- <-; simpl; rewrite (Hit j); auto).
+        + destruct (jmap (ejson cfg) sub) as [js|] eqn:Hjs; [|discriminate].
+          injection Hh as <- <- <-. simpl. rewrite (Hsub EKMust sub js eq_refl); [auto|discriminate|exact Hjs].
+        + destruct (jmap (ejson cfg) sub) as [js|] eqn:Hjs; [|discriminate].
+          injection Hh as <- <- <-. simpl. rewrite (Hsub EKMustNot sub js eq_refl); [auto|discriminate|exact Hjs]. }
+    destruct Hparts as [Hm [Hs Hn]]. apply bool_obj_wf; assumption.
+Qed.
+
+Lemma build_wf cfg t j : wf_config cfg = true -> build cfg t = ROk j -> json_wf j = true.
+Proof.
+  intros Hwf. unfold build. destruct (build_etree cfg t) as [e|]; [|discriminate].
+  apply ejson_wf. exact Hwf.
+Qed.
+
+(* ================================================================ H. clause kinds are never reserved *)
+Definition method_known (l : leaf) : bool :=
+  mem_str (l_method l) [k_term; k_match; k_match_phrase; k_range; k_fuzzy].
+
+Lemma forallb_map_known (g : leaf -> leaf) ls :
+  (forall l, method_known l = true -> method_known (g l) = true) ->
+  forallb method_known ls = true -> forallb method_known (map g ls) = true.
+Proof.
+  intros Hg. induction ls as [|l ls IH]; simpl; [auto|]. intros H. apply andb_prop in H as [H1 H2].
+  rewrite (Hg l H1), (IH H2). reflexivity.
+Qed.
+
+Lemma tagz_known z lf ls : forallb method_known ls = true -> forallb method_known (tagz z lf ls) = true.
+Proof.
+  intros H. unfold tagz. destruct z; [|exact H]. destruct lf; [|exact H].
+  apply forallb_map_known; auto.
+Qed.
+
+Lemma xl_methods cfg env : forall t cx, forallb method_known (xl cfg env t cx) = true.
+Proof.
+  intros t. induction t using item_ind'; intros cx.
+  - destruct k; simpl; unfold word_leaf, phrase_leaf;
+      repeat match goal with |- context [if ?b then _ else _] => destruct b end; reflexivity.
+  - simpl. apply IHt.
+  - simpl. apply IHt.
+  - simpl. destruct (range_bound_value t1), (range_bound_value t2); reflexivity.
+  - simpl. destruct (leafy cfg env t (propagate_name (Fuzzy m t d i) cx)); [|apply IHt].
+    apply forallb_map_known; [reflexivity|apply IHt].
+  - simpl. destruct (leafy cfg env t (propagate_name (Proximity m t d i) cx)); [|apply IHt].
+    apply forallb_map_known; [|apply IHt]. intros l Hl. destruct (ctx_is_analyzed cfg cx); [exact Hl|reflexivity].
+  - simpl. destruct (leafy cfg env t (propagate_name (Boost m t f i) cx)); [|apply IHt].
+    apply forallb_map_known; [auto|apply IHt].
+  - change (xl cfg env (Op k m ops) cx) with
+      ((fix go (l : list item) : list leaf :=
+          match l with
+          | [] => []
+          | c :: l' =>
+              tagz (ztq_of_op (ekind cfg (Op k m ops)))
+                   (leafy cfg env c (propagate_name (Op k m ops) cx))
+                   (xl cfg env c (propagate_name (Op k m ops) cx)) ++ go l'
+          end) ops).
+    generalize (propagate_name (Op k m ops) cx) as cx'.
+    generalize (ztq_of_op (ekind cfg (Op k m ops))) as z. intros z cx'.
+    induction H as [|c l Hc _ IHl]; [reflexivity|]. rewrite forallb_app, IHl, andb_true_r.
+    apply tagz_known. apply Hc.
+  - simpl. apply tagz_known. apply IHt.
+  - simpl. apply IHt.
+  - reflexivity.
+Qed.
+
+Lemma field_opts_not_reserved cfg field :
+  options_not_reserved cfg = true ->
+  not_reserved_value (obj_get k_match_type (field_opts cfg field)) = true /\
+  not_reserved_value (obj_get k_type (field_opts cfg field)) = true.
+Proof.
+  intros H. unfold field_opts. destruct (obj_get field (c_field_options cfg)) as [o|] eqn:Ho.
+  - apply obj_get_in in Ho as [k' Hin]. unfold options_not_reserved in H. rewrite forallb_forall in H.
+    specialize (H _ Hin). apply andb_prop in H. exact H.
+  - split; reflexivity.
+Qed.
+
+Lemma kind_not_reserved_known cfg l :
+  options_not_reserved cfg = true -> method_known l = true -> kind_not_reserved cfg l = true.
+Proof.
+  intros Ho Hk. unfold kind_not_reserved, leaf_method.
+  destruct (field_opts_not_reserved cfg (leaf_field l) Ho) as [H1 H2].
+  assert (Hm : negb (str_eqb (l_method l) k_bool) && negb (str_eqb (l_method l) k_nested) = true).
+  { unfold method_known in Hk. simpl in Hk.
+    repeat (apply orb_true_iff in Hk as [Hk|Hk]; [apply str_eqb_eq in Hk; rewrite Hk; reflexivity|]).
+    discriminate. }
+  repeat match goal with |- context [if ?b then _ else _] => destruct b; [try reflexivity|] end;
+    try exact Hm.
+  destruct (obj_get k_match_type (field_opts cfg (leaf_field l))) as [[]|]; try reflexivity; try exact H1.
+  destruct (obj_get k_type (field_opts cfg (leaf_field l))) as [[]|]; try reflexivity; try exact H2.
+  exact Hm.
+Qed.
+
+Lemma options_kinds_not_reserved cfg t :
+  options_not_reserved cfg = true -> kinds_not_reserved cfg t = true.
+Proof.
+  intros Ho. unfold kinds_not_reserved, expected_leaves.
+  pose proof (xl_methods cfg (mk_env cfg) t ctx0) as H. rewrite forallb_forall in *.
+  intros l Hl. apply kind_not_reserved_known; [exact Ho|apply H; exact Hl].
+Qed.
